@@ -226,6 +226,22 @@ def check_case(c, out):
             except Exception as ex:
                 kind, val = 'exc', '%s: %s' % (type(ex).__name__, ex)
             report(out, kind, val)
+            # ---- object history: product, new coefficient tensor assigned to the SAME object, product / matrix again
+            if kind == 'ok':
+                stage('data assignment')
+                try:
+                    A.data = 3.0 * data
+                    y3 = [float(t) for t in A.dot(x)]
+                    X3 = A.asmatrix().toarray()
+                    if y3 != [3.0 * float(t) for t in c['y']] or not np.array_equal(X3, 3.0 * den):
+                        out.v('MLMatrix stale after data assignment %s' % ('L=%d' % L if L < 4 else 'L>=4'), input=inp,
+                              via='dot; data=3*data; dot', expected=[3.0 * float(t) for t in c['y']], got=y3)
+                    A.data = data
+                    if [float(t) for t in A.dot(x)] != val:
+                        out.v('MLMatrix stale after data assignment %s' % ('L=%d' % L if L < 4 else 'L>=4'), input=inp,
+                              via='dot; data=3*data; dot; data=data; dot')
+                except Exception as ex:
+                    out.v('exception %s MLMatrix.data assignment' % type(ex).__name__, input=inp, error=repr(ex))
 
     # ---- constructor from a matrix (dense / sparse) recovers the data tensor
     stage('from matrix')
